@@ -788,6 +788,175 @@ def bundled_objects(limit):
     return out, problems
 
 
+# ====================================================================== store -> edit in place -> store again
+def mutate_in_place(rng, o, kind, E):
+    """edits that keep the atom / bond / conformer counts; -> list of edit names (at least one atom- or bond-level edit
+    when the object has atoms).  Values stay msgpack-stable (tuples, single-precision floats)."""
+    import numpy as np
+    from molli.chem import Element, AtomType, AtomStereo, AtomGeom, BondType, BondStereo
+    done = []
+    n_edits = rng.randrange(1, 5)
+    menu = []
+    if o.n_atoms:
+        menu += ["a.element", "a.label", "a.isotope", "a.atype", "a.stereo", "a.geom", "a.formal_charge", "a.formal_spin",
+                 "a.attrib-inplace", "a.attrib-new"] * 2
+    if o.n_bonds:
+        menu += ["b.btype", "b.stereo", "b.label", "b.f_order", "b.attrib-inplace", "b.swap", "b.retarget"] * 2
+    top = ["o.name", "o.charge", "o.mult", "o.attrib-inplace", "o.coords", "o.charges"] + (["o.weights"] if kind == "ens" else [])
+    for e in range(n_edits):
+        ed = rng.choice(menu) if (menu and (e == 0 or rng.random() < 0.75)) else rng.choice(top)
+        if ed.startswith("a."):
+            a = o.atoms[rng.randrange(o.n_atoms)]
+            if ed == "a.element":
+                a.element = Element((int(a.element) + rng.randrange(1, 118)) % 119)
+            elif ed == "a.label":
+                a.label = rng.choice([None, "", "edited", "E\u00e9"]) if a.label != "edited" else "edited2"
+            elif ed == "a.isotope":
+                a.isotope = (a.isotope or 0) + rng.randrange(1, 9)
+            elif ed == "a.atype":
+                a.atype = AtomType(rng.choice([x for x in E["atype"] if x != int(a.atype)]))
+            elif ed == "a.stereo":
+                a.stereo = AtomStereo(rng.choice([x for x in E["astereo"] if x != int(a.stereo)]))
+            elif ed == "a.geom":
+                a.geom = AtomGeom(rng.choice([x for x in E["geom"] if x != int(a.geom)]))
+            elif ed == "a.formal_charge":
+                a.formal_charge = a.formal_charge + rng.choice([-2, -1, 1, 2])
+            elif ed == "a.formal_spin":
+                a.formal_spin = a.formal_spin + rng.randrange(1, 3)
+            elif ed == "a.attrib-inplace":
+                a.attrib["edited%d" % e] = gen_value(rng, 1, False)
+            else:
+                a.attrib = {"fresh": (e, "x"), **gen_dict(rng, 1, False)}
+        elif ed.startswith("b."):
+            b = o.bonds[rng.randrange(o.n_bonds)]
+            if ed == "b.btype":
+                b.btype = BondType(rng.choice([x for x in E["btype"] if x != int(b.btype)]))
+            elif ed == "b.stereo":
+                b.stereo = BondStereo(rng.choice([x for x in E["bstereo"] if x != int(b.stereo)]))
+            elif ed == "b.label":
+                b.label = "bedit" if b.label != "bedit" else None
+            elif ed == "b.f_order":
+                b.f_order = float(b.f_order) + 0.5
+            elif ed == "b.attrib-inplace":
+                b.attrib["edited%d" % e] = gen_value(rng, 1, False)
+            elif ed == "b.swap":
+                b.a1, b.a2 = b.a2, b.a1
+            else:
+                b.a2 = o.atoms[rng.randrange(o.n_atoms)]
+        elif ed == "o.name":
+            o.name = o.name + "-edited"
+        elif ed == "o.charge":
+            o.charge = o.charge + rng.choice([-1, 1, 2])
+        elif ed == "o.mult":
+            o.mult = o.mult + 1
+        elif ed == "o.attrib-inplace":
+            o.attrib["edited%d" % e] = gen_value(rng, 2, False)
+        elif ed == "o.coords" and np.size(o.coords):
+            o.coords[...] = np.asarray(o.coords) * 0.5 + 1.25
+        elif ed == "o.charges" and np.size(o.atomic_charges):
+            o.atomic_charges[...] = np.asarray(o.atomic_charges) + 0.125
+        elif ed == "o.weights" and np.size(o.weights):
+            o.weights[...] = np.asarray(o.weights) + 0.5
+        done.append(ed)
+    return done
+
+
+def gen_sequences(rng, E, n):
+    out = []
+    for i in range(n):
+        kind = "mol" if i % 2 == 0 else "ens"
+        ver = 2 if (i // 2) % 3 else 1
+        for _ in range(20):
+            d = gen_desc(rng, E, kind, ver, max_atoms=6, risky=False)
+            if d["atoms"] or rng.random() < 0.05:
+                break
+        out.append({"desc": d, "mseed": rng.randrange(2 ** 31), "same_session": bool(rng.randrange(2)),
+                    "ver_b": rng.choice([1, 2])})
+    return out
+
+
+def run_sequence(work, sq, E, tag):
+    """One object, stored / edited in place / stored again.  -> stored items (each with the state the object had AT
+    THE TIME of that store as `inp`), not yet read back; and the list of (path, kind, ver, key, item)."""
+    import random
+    d = sq["desc"]
+    kind, ver = d["kind"], d["ver"]
+    cls = lib_class(kind)
+    ext = "mlib" if kind == "mol" else "clib"
+    pa = os.path.join(work, f"A_{kind}_v{ver}.{ext}")
+    pb = os.path.join(work, f"B_{kind}_v{sq['ver_b']}.{ext}")
+    for p, v in ((pa, ver), (pb, sq["ver_b"])):
+        if not os.path.exists(p):
+            new_library(p, kind, v)
+    rng = random.Random(sq["mseed"])
+    o = build(d)
+    stored = []
+
+    def put(lib, path, v, key, obj, step, edits):
+        it = {"kind": kind, "ver": v, "src": f"seq:{tag}:{step}", "inp": describe(obj, kind), "step": step, "edits": edits,
+              "replay": {"kind": "seq", "seq": sq}, "path": path, "key": key}
+        try:
+            lib[key] = obj
+        except Exception as e:       # noqa
+            it["outcome"], it["where"], it["exc"] = "raised", "write", e
+        stored.append(it)
+
+    w = cls(pa, readonly=False)
+    with w.writing():
+        put(w, pa, ver, f"{tag}-k1", o, "first-store", [])
+        if sq["same_session"]:
+            ed = mutate_in_place(rng, o, kind, E)
+            put(w, pa, ver, f"{tag}-k2", o, "second-store", ed)
+    del w
+    if not sq["same_session"]:
+        ed = mutate_in_place(rng, o, kind, E)
+        w = cls(pa, readonly=False)
+        with w.writing():
+            put(w, pa, ver, f"{tag}-k2", o, "second-store", ed)
+        del w
+    # the same object, edited once more, into a DIFFERENT library (possibly the other encoding)
+    ed2 = mutate_in_place(rng, o, kind, E)
+    wb = cls(pb, readonly=False)
+    with wb.writing():
+        put(wb, pb, sq["ver_b"], f"{tag}-k3", o, "other-library", ed2)
+    del wb
+    # a second, independent object with the content the first one had at its FIRST store
+    twin = build({**desc_of(stored[0]["inp"]), "ver": ver})
+    w = cls(pa, readonly=False)
+    with w.writing():
+        put(w, pa, ver, f"{tag}-k4", twin, "twin-of-first-state", [])
+        put(w, pa, ver, f"{tag}-k5", o, "third-store-unchanged", [])
+    del w
+    return stored
+
+
+def read_back(stored):
+    """fresh read-only handles, one reading() session per library file"""
+    by_path = {}
+    for it in stored:
+        by_path.setdefault((it["path"], it["kind"]), []).append(it)
+    for (path, kind), its in by_path.items():
+        r = lib_class(kind)(path, readonly=True)
+        with r.reading():
+            for it in its:
+                if it.get("outcome") == "raised":
+                    continue
+                try:
+                    it["back"] = describe(r[it["key"]], kind)
+                    it["outcome"] = "ok"
+                except Exception as e:       # noqa
+                    it["outcome"], it["where"], it["exc"] = "raised", "read", e
+    return stored
+
+
+def run_sequences(ctx, E, seqs, sub="c01seq"):
+    work = ctx.sub(sub)
+    stored = []
+    for i, sq in enumerate(seqs):
+        stored += run_sequence(work, sq, E, f"s{i}")
+    return read_back(stored)
+
+
 # ====================================================================== run
 HEADER = "From Coq Require Import ZArith NArith String List.\nImport ListNotations.\nFrom Molli Require Import Common.ParseStr Model.Codec Gen.IoWiring.\nLocal Open Scope string_scope.\n"
 CODEC_OF = {("mol", 2): "MolV2", ("ens", 2): "EnsV2", ("mol", 1): "MolV1", ("ens", 1): "EnsV1"}
@@ -837,7 +1006,12 @@ def judge_item(it):
             return [(KNOWN_RANGE, f"an attribute value beyond the single-precision range makes the write raise ({type(e).__name__}: {e})")]
         return [(f"{tag}:raises-on-{it['where']}:{type(e).__name__}",
                  f"an object stored in a {'legacy ' if it['ver'] == 1 else ''}library could not be {it['where']} ({type(e).__name__}: {e})"[:400])]
-    return judge(it["inp"], it["back"], it["ver"])
+    vs = judge(it["inp"], it["back"], it["ver"])
+    if it.get("step") and it["step"] != "first-store":
+        # the value read back is not the state the object had when THIS store was made
+        vs = [(s if s in (KNOWN_LIST, KNOWN_DBL, KNOWN_FORDER) else f"{s}:{it['step']}",
+               t if s in (KNOWN_LIST, KNOWN_DBL, KNOWN_FORDER) else f"{it['step']} after in-place edits {it.get('edits')}: {t}") for s, t in vs]
+    return vs
 
 
 def case_term(it):
@@ -855,7 +1029,9 @@ def run(ctx, rep):
                 "wiring regenerated and the round-trip premises decided by the kernel; tie H: generated molecules / ensembles "
                 "(all elements, every enum member, None/empty/unicode labels, nested attributes, 0 atoms, 0 bonds, 0..4 conformers, "
                 "NaN/inf/denormal coordinates) and the entries of the bundled libraries, stored in a writing() session and read "
-                "back by a fresh handle in a reading() session, v2 and legacy v1; a case is non-trivial when the object has at "
+                "back by a fresh handle in a reading() session, v2 and legacy v1; plus store / edit-in-place (counts unchanged) / store-again "
+                "sequences of ONE object (same and new session, a second library, an equal-content twin), every stored value "
+                "compared with the state at the time of its store; a case is non-trivial when the object has at "
                 "least one atom; distinct by its full description")
     rep.trusted += ["T-emitter harness/c01.py (Sentinel / ser_wiring / des_wiring: CPython executing _serialize_* and "
                     "_deserialize_* of molli/chem/io.py on objects whose slots hold unique values; a (de)serialiser that "
@@ -906,6 +1082,12 @@ def run(ctx, rep):
             items.append({"kind": "mol", "ver": v2, "obj": m, "src": f"{fn}:{k}"})
         rep.count("bundled:" + fn)
     items = run_cases(ctx, items)
+    seq_items = run_sequences(ctx, E, gen_sequences(ctx.rng, E, 700 if ctx.thorough else 110))
+    for it in seq_items:
+        rep.count("seq:" + it["step"])
+        for ed in it["edits"]:
+            rep.count("seq-edit:" + ed)
+    items += seq_items
     terms, kept = [], []
     reproduced = set()
     for it in items:
@@ -928,7 +1110,8 @@ def run(ctx, rep):
                 reproduced.add(sig)
             else:
                 found = True
-            rp = {"kind": "case", "ver": it["ver"], "desc": {**desc_of(it["inp"]), "ver": it["ver"]}} if it["src"] == "gen" \
+            rp = it["replay"] if "replay" in it else \
+                {"kind": "case", "ver": it["ver"], "desc": {**desc_of(it["inp"]), "ver": it["ver"]}} if it["src"] == "gen" \
                 else {"kind": "bundled", "file": it["src"].split(":")[0], "key": it["src"].split(":", 1)[1], "ver": it["ver"]}
             rep.violate(sig, what, rp)
         try:
@@ -958,6 +1141,9 @@ def replay(ctx, data):
         d = data["desc"]
         it = run_cases(ctx, [{"kind": d["kind"], "ver": d.get("ver", data.get("ver", 2)), "obj": build(d), "src": "gen"}])[0]
         out += [vlib.Violation(s, t) for s, t in judge_item(it)]
+    elif data.get("kind") == "seq":
+        for it in run_sequences(ctx, enum_tables(), [data["seq"]], sub="c01seq_replay"):
+            out += [vlib.Violation(s, t) for s, t in judge_item(it)]
     elif data.get("kind") == "bundled":
         import molli as ml
         p = os.path.join(os.path.dirname(ml.__file__), "files", data["file"])
